@@ -496,6 +496,9 @@ def build_fixed(g):
     A(vec(un[1])); A(option(un[2])); A(tup([un[1], un[2]]))
     g.enum("transparent", [vec(u8), vec(u16)]); g.enum("transparent", [vec(u16), vec(u8)])
     g.enum("transparent", [vl, by["Bytes"]]); g.enum("transparent", [option(u8), vec(u32), by["Bytes"]])
+    # earlier variants that reject with an application-level error while a later one accepts
+    g.enum("transparent", [vec(by["bool"]), vec(u8)]); g.enum("transparent", [bls[4], by["Bytes"]])
+    g.enum("transparent", [vec(by["NonZeroUsize"]), vec(u64), by["Bytes"]])
     # generic structs instantiated at several parameters
     g.items.append("""
 #[derive(Debug, Clone, PartialEq, Encode, Decode)]
